@@ -137,4 +137,21 @@ def desFields : D → List Field → Res (Option (List Field))
       | some fs => pure (some (.endian e :: fs))
       | none => pure none
 
+/-! ### widths kept explicit -/
+
+/-- `static_cast<uintN_t>(intN_t)` of the signed stream operators -/
+def toUnsigned (n : Nat) (v : Int) : Nat := (v % (2 ^ (8 * n) : Nat)).toNat
+
+/-- reading the same storage back as `intN_t` (`*((uintN_t*)&out)`) -/
+def toSigned (n : Nat) (u : Nat) : Int := if u < 2 ^ (8 * n - 1) then u else (u : Int) - (2 ^ (8 * n) : Nat)
+
+/-- `checkSize` / `extendSize` as coded after the fix: `need_size <= size_ - pos_` in `size_t` arithmetic -/
+def checkSizeW (size pos need : Nat) : Bool := need ≤ (size + 2 ^ 64 - pos) % 2 ^ 64
+
+/-- the comparison before the fix: `pos_ + need_size <= size_` with the sum wrapping at 2^64 -/
+def checkSizeOrig (size pos need : Nat) : Bool := (pos + need) % 2 ^ 64 ≤ size
+
+/-- `checkSize(n)` of the model (what `D.take` / `D.skip` test) -/
+def D.check (d : D) (need : Nat) : Bool := d.pos + need ≤ d.data.length
+
 end Tbox.C19.Ser
